@@ -45,6 +45,8 @@ type MXFacts struct {
 	StsMatch bool   `json:"stsMatch"`
 	Tlsa     string `json:"tlsa"`
 	Slow     bool   `json:"slow"`
+	Cn       string `json:"cn"`    // "no" | "sec" | "half" | "insec": the MX name is a CNAME
+	TlsaC    string `json:"tlsaC"` // TLSA outcome under the canonical name
 }
 
 type Cfg struct {
@@ -181,26 +183,53 @@ func buildWorld(t *testing.T, c Cfg, tr *vtrace.Tracer) *world {
 		w.servers = append(w.servers, srv)
 		w.net.Add(host, srv)
 		domZone.MX = append(domZone.MX, net.MX{Host: host + ".", Pref: uint16(10 * i)})
-		zones[host+"."] = scripted.DNSZone{AD: f.Tlsa != "insecure", A: []string{"127.0.0.1"}}
+		tlsaZone := func(class string) (scripted.DNSZone, bool) {
+			switch class {
+			case "none":
+				return scripted.DNSZone{AD: true}, true
+			case "ee_match":
+				return scripted.DNSZone{AD: true, TLSA: tlsaRR(3, 1, 1, scripted.SPKISHA256(leaf.Leaf))}, true
+			case "ta_match":
+				return scripted.DNSZone{AD: true, TLSA: tlsaRR(2, 1, 1, scripted.SPKISHA256(cs.CA))}, true
+			case "mismatch":
+				return scripted.DNSZone{AD: true, TLSA: tlsaRR(3, 1, 1,
+					"00000000000000000000000000000000000000000000000000000000deadbeef")}, true
+			case "unusable":
+				// PKIX-EE (usage 1) is not usable for SMTP (RFC 7672 3.1.3)
+				return scripted.DNSZone{AD: true, TLSA: tlsaRR(1, 1, 1, scripted.SPKISHA256(leaf.Leaf))}, true
+			case "servfail":
+				return scripted.DNSZone{AD: true, ServFail: true}, true
+			}
+			t.Fatalf("unknown tlsa class %q", class)
+			return scripted.DNSZone{}, false
+		}
+		// a TLSA RRset that is not DNSSEC-authenticated must be ignored whatever it says
+		insecureRRset := scripted.DNSZone{AD: false, TLSA: tlsaRR(3, 1, 1,
+			"00000000000000000000000000000000000000000000000000000000deadbeef")}
 		tname := "_25._tcp." + host + "."
-		switch f.Tlsa {
-		case "insecure":
-		case "none":
-			zones[tname] = scripted.DNSZone{AD: true}
-		case "ee_match":
-			zones[tname] = scripted.DNSZone{AD: true, TLSA: tlsaRR(3, 1, 1, scripted.SPKISHA256(leaf.Leaf))}
-		case "ta_match":
-			zones[tname] = scripted.DNSZone{AD: true, TLSA: tlsaRR(2, 1, 1, scripted.SPKISHA256(cs.CA))}
-		case "mismatch":
-			zones[tname] = scripted.DNSZone{AD: true, TLSA: tlsaRR(3, 1, 1,
-				"00000000000000000000000000000000000000000000000000000000deadbeef")}
-		case "unusable":
-			// PKIX-EE (usage 1) is not usable for SMTP (RFC 7672 3.1.3)
-			zones[tname] = scripted.DNSZone{AD: true, TLSA: tlsaRR(1, 1, 1, scripted.SPKISHA256(leaf.Leaf))}
-		case "servfail":
-			zones[tname] = scripted.DNSZone{AD: true, ServFail: true}
+		switch f.Cn {
+		case "", "no":
+			zones[host+"."] = scripted.DNSZone{AD: f.Tlsa != "insecure", A: []string{"127.0.0.1"}}
+			if f.Tlsa != "insecure" {
+				zones[tname], _ = tlsaZone(f.Tlsa)
+			}
+		case "sec", "half", "insec":
+			canon := "cn" + strconv.Itoa(i) + "." + domain + "."
+			zones[host+"."] = scripted.DNSZone{CNAME: canon, AD: f.Cn == "sec", ADCNAME: f.Cn != "insec"}
+			zones[canon] = scripted.DNSZone{AD: f.Cn == "sec", A: []string{"127.0.0.1"}}
+			cname := "_25._tcp." + canon
+			if f.TlsaC == "insecure" {
+				zones[cname] = insecureRRset
+			} else {
+				zones[cname], _ = tlsaZone(f.TlsaC)
+			}
+			if f.Tlsa == "insecure" {
+				zones[tname] = insecureRRset
+			} else {
+				zones[tname], _ = tlsaZone(f.Tlsa)
+			}
 		default:
-			t.Fatalf("unknown tlsa class %q", f.Tlsa)
+			t.Fatalf("unknown cn class %q", f.Cn)
 		}
 		if f.StsMatch {
 			stsMX = append(stsMX, host)
@@ -282,11 +311,26 @@ func buildWorld(t *testing.T, c Cfg, tr *vtrace.Tracer) *world {
 func cfgEvent(c Cfg) vtrace.Ev {
 	mx := []interface{}{}
 	for _, f := range c.MX {
-		mx = append(mx, map[string]interface{}{"stls": f.Stls, "cert": f.Cert, "stsMatch": f.StsMatch, "tlsa": f.Tlsa, "slow": f.Slow})
+		mx = append(mx, map[string]interface{}{"stls": f.Stls, "cert": f.Cert, "stsMatch": f.StsMatch, "tlsa": f.Tlsa, "slow": f.Slow,
+			"cn": cnOf(f), "tlsaC": tlsaCOf(f)})
 	}
 	pols := append([]string{}, c.Pols...)
 	return vtrace.Ev{"pols": pols, "minTLS": c.MinTLS, "minMX": c.MinMX, "override": c.Override,
 		"sts": c.Sts, "adMX": c.AdMX, "dns": c.DNS, "mx": mx}
+}
+
+func cnOf(f MXFacts) string {
+	if f.Cn == "" {
+		return "no"
+	}
+	return f.Cn
+}
+
+func tlsaCOf(f MXFacts) string {
+	if f.TlsaC == "" {
+		return "insecure"
+	}
+	return f.TlsaC
 }
 
 func testHeader() textproto.Header {
